@@ -326,3 +326,38 @@ func caseMix(r *SM64, s string) string {
 	}
 	return string(b)
 }
+
+// pairs of distinct terms that a careless key (id only, case-folded text, version group) would confuse
+var confusable = [][2]string{
+	{"LicenseRef-acme", "LicenseRef-ACME"}, {"DocumentRef-d:LicenseRef-x", "DocumentRef-D:LicenseRef-x"}, {"LicenseRef-x", "DocumentRef-d:LicenseRef-x"},
+	{"MIT", "MIT+"}, {"Apache-1.0", "Apache-1.0+"}, {"Apache-2.0", "Apache-1.1+"}, {"GPL-2.0-only", "GPL-2.0-or-later"}, {"GPL-2.0", "GPL-2.0+"},
+	{"GPL-2.0-only", "GPL-2.0-only WITH Classpath-exception-2.0"}, {"GPL-2.0+ WITH Bison-exception-2.2", "GPL-2.0+ WITH Classpath-exception-2.0"},
+	{"GPL-2.0-only", "GPL-2.0"}, {"LGPL-2.1-only", "LGPL-2.1+"}, {"AGPL-1.0", "AGPL-1.0-only"}, {"CC-BY-3.0", "CC-BY-NC-3.0"}, {"MPL-2.0", "MPL-2.0-no-copyleft-exception"},
+	{"GFDL-1.1-invariants-only", "GFDL-1.1-invariants-or-later"}, {"LicenseRef-MIT", "MIT"}, {"mit", "MIT"}, {"BSD-3-Clause", "BSD-3-Clause-Clear"},
+}
+
+// confusableTrees: small expressions holding both terms of a confusable pair, in both orders
+func confusableTrees() []*Tree {
+	var out []*Tree
+	for _, p := range confusable {
+		a, b := leaf(p[0]), leaf(p[1])
+		x, y := leaf("Zlib"), leaf("0BSD")
+		out = append(out, and(a, b), or(a, b), and(b, a), or(b, a),
+			or(and(a, x), and(b, y)), or(and(b, x), and(a, y)), and(or(a, x), or(b, y)), and(or(b, x), or(a, y)),
+			or(a, and(b, x)), and(a, or(b, x)), or(and(x, a), b), and(or(x, b), a))
+	}
+	return out
+}
+func confusableAllowed(t *Tree) []string {
+	var cand []string
+	for _, l := range uniq(t.leaves()) {
+		cand = append(cand, l)
+		for _, p := range confusable {
+			if p[0] == l {
+				cand = append(cand, p[1])
+			}
+		}
+	}
+	cand = append(cand, "Apache-2.0", "GPL-3.0-only", "GPL-3.0-only WITH Classpath-exception-2.0")
+	return uniq(cand)
+}
